@@ -89,9 +89,10 @@ structure Handle where
   wcq : List (Nat × Int) := []   -- udp write_completed_queue (request, status)
   sqc : Int := 0                 -- udp send_queue_count
   processing : Bool := false     -- UV_HANDLE_UDP_PROCESSING
+  connReq : Option Nat := none   -- stream connect_req (with delayed_error set)
 deriving Repr, Inhabited
 
-inductive ReqKind | work | udpSend (h : Nat)
+inductive ReqKind | work | udpSend (h : Nat) | connect (h : Nat)
 deriving DecidableEq, Repr, Inhabited
 structure Req where
   id : Nat
@@ -140,6 +141,8 @@ inductive Op
   | work
   | workNull                           -- uv_queue_work without work_cb: UV_EINVAL, nothing registered
   | udpSendBad (h : Nat)               -- uv_udp_send without destination: UV_EDESTADDRREQ, nothing registered
+  | reject (api : Nat)                 -- getaddrinfo / getnameinfo / random refused synchronously: UV_EINVAL
+  | connectBad (h : Nat)               -- uv_pipe_connect(""): error deferred to the next tick
   | cancel (r : Nat)
   | stopLoop
   | updateTime
@@ -155,7 +158,7 @@ inductive Op
   | bad (text : String)                -- unparsable / main-only op inside a callback
 deriving DecidableEq, Repr, Inhabited
 
-inductive CbKind | timer | idle | prepare | check | async | poll | close | work | udpSend
+inductive CbKind | timer | idle | prepare | check | async | poll | close | work | udpSend | connect
 deriving DecidableEq, Repr, Inhabited
 
 inductive Phase | timers0 | pending | idle | prepare | poll | pending2 | check | closing | timers
@@ -442,6 +445,14 @@ def udpSend (s : State) (id : Nat) : State :=
   | none => s
   | some h => udpSendKick (hStart (udpSendEnqueue s id) id) id (h.sqc == 0) h.processing
 
+/-- uv_pipe_connect whose uv_pipe_connect2 failed synchronously (pipe.c:229-249): delayed_error,
+    connect_req, uv__req_init, uv__io_feed -/
+def pipeConnectBad (s : State) (id : Nat) : State :=
+  let r := s.nextReq
+  let s := { s with ar := reqRegister s.ar, reqs := s.reqs ++ [({ id := r, kind := .connect id } : Req)], nextReq := r + 1 }
+  let s := modH s id (fun h => { h with connReq := some r })
+  ioFeed s id
+
 /-- uv__udp_close (udp.c:56-64) -/
 def udpClose (s : State) (id : Nat) : State :=
   let s := ioClose s id
@@ -587,7 +598,7 @@ def applyOp (s : State) (o : Op) : State × Ret :=
         else if f.active then ok s (-22) else ok (hStart (initInotify s) id)
       | .udp => if hClosing f then illegal s else let (s, rc) := udpRecvStart s id; ok s rc
       | .tcp => if hClosing f then illegal s else ok (streamListen s id)
-      | .pipe => if hClosing f then illegal s else ok (streamListen s id)
+      | .pipe => if hClosing f || h.connReq.isSome then illegal s else ok (streamListen s id)   -- no listen while connecting
       | .async => illegal s
   | .stop id =>
     match getHF s id with
@@ -641,6 +652,13 @@ def applyOp (s : State) (o : Op) : State × Ret :=
     | none => illegal s
   | .work => ok (workSubmit s)
   | .workNull => ok s (-22)
+  | .reject api => if api < 3 then ok s (-22) else illegal s
+  | .connectBad id =>
+    match getHF s id with
+    | some (h, f) =>
+      if h.kind == .pipe && !f.internal && !hClosing f && !h.io.hasFd && h.connReq.isNone then ok (pipeConnectBad s id)
+      else illegal s
+    | none => illegal s
   | .udpSendBad id =>
     match getHF s id with
     | some (h, f) => if h.kind == .udp && !hClosing f then ok s (-89) else illegal s
